@@ -7,9 +7,14 @@
     c15_inline_rows   at any depth under & and | (and not_ of the enclosing conditions), the
                       composed query and the query with every sub-query replaced by its
                       conditions return the same rows
-  Sub-queries as comparison operands / constructor arguments: correspondence only (C13, C11).
+  Sub-queries as comparison operands / constructor arguments: correspondence only (C13, C11), except
+    c15_operand_pairs_survive      the outputs of a correlated sub-query operand, de-duplicated on (value of the
+                                   other operand, solution), keep every pair that satisfies the comparison (R36;
+                                   the `example` after it: de-duplicated on the solution alone a row is lost)
+    c15_operand_requirement_tied   the source writes that requirement (regenerated flag)
 -/
 import EqlModel.Props.C03
+import EqlModel.Gen.Tables
 
 namespace Eql
 variable {V : Type}
@@ -101,3 +106,69 @@ theorem c15_inline_rows [Inhabited V] (hW : W.Lawful) (sel : List (Term V)) (sc 
     · exact ha v (List.mem_append.2 (Or.inr h))
 
 end Eql
+
+namespace Eql.OperandDedup
+
+/-- Duplicate suppression of an operand's outputs: the first output of every key is kept (`_is_duplicate_output_`: the key is
+    the projection of the output on the variables required above the operand). -/
+def dedupBy {α κ : Type} [DecidableEq κ] (key : α → κ) : List α → List κ → List α
+  | [], _ => []
+  | x :: xs, seen => if key x ∈ seen then dedupBy key xs seen else x :: dedupBy key xs (key x :: seen)
+
+theorem dedupBy_sub {α κ : Type} [DecidableEq κ] (key : α → κ) (xs : List α) (seen : List κ) :
+    ∀ x, x ∈ dedupBy key xs seen → x ∈ xs := by
+  induction xs generalizing seen with
+  | nil => intro x h; simp [dedupBy] at h
+  | cons y ys ih =>
+    intro x h
+    unfold dedupBy at h
+    split at h
+    · exact List.mem_cons_of_mem _ (ih _ _ h)
+    · rcases List.mem_cons.mp h with h | h
+      · exact h ▸ List.mem_cons_self
+      · exact List.mem_cons_of_mem _ (ih _ _ h)
+
+/-- When the key tells any two different outputs apart, nothing but repetitions of the very same output is suppressed. -/
+theorem mem_dedupBy_of_injective {α κ : Type} [DecidableEq κ] (key : α → κ)
+    (inj : ∀ a b, key a = key b → a = b) (xs : List α) (seen : List κ) :
+    ∀ x, x ∈ xs → key x ∉ seen → x ∈ dedupBy key xs seen := by
+  induction xs generalizing seen with
+  | nil => intro x h; cases h
+  | cons y ys ih =>
+    intro x hx hs
+    unfold dedupBy
+    rcases List.mem_cons.mp hx with hxy | hxy
+    · subst hxy
+      simp [hs]
+    · by_cases hy : key y ∈ seen
+      · simp only [hy, if_true]; exact ih seen x hxy hs
+      · simp only [hy, if_false]
+        by_cases hk : key x = key y
+        · have := inj _ _ hk; subst this; exact List.mem_cons_self
+        · refine List.mem_cons_of_mem _ (ih _ x hxy ?_)
+          intro hm
+          rcases List.mem_cons.mp hm with h | h
+          · exact hk h
+          · exact hs h
+
+/-- R36 as a statement about the comparison `l op sub(l)`: the outputs of the right operand are pairs (value of the left
+    operand, solution of the correlated sub-query). De-duplicated on BOTH components (what the right operand of a `Comparator`
+    requires since the repair), the pairs that satisfy the comparison are exactly those of the undeduplicated stream. -/
+theorem c15_operand_pairs_survive {L R : Type} [DecidableEq L] [DecidableEq R] (outs : List (L × R)) (cmp : L × R → Bool) :
+    ∀ p, p ∈ (dedupBy (fun q : L × R => q) outs []).filter cmp ↔ p ∈ outs.filter cmp := by
+  intro p
+  simp only [List.mem_filter]
+  constructor
+  · rintro ⟨h, hc⟩; exact ⟨dedupBy_sub _ _ _ _ h, hc⟩
+  · rintro ⟨h, hc⟩
+    exact ⟨mem_dedupBy_of_injective _ (fun _ _ h => h) outs [] p h (by simp), hc⟩
+
+/-- Before the repair the key was the solution alone: the solution `1`, rejected under the left value `0`, is suppressed
+    under the left value `1`, where the comparison holds - the row is lost. -/
+example : (dedupBy (fun q : Nat × Nat => q.2) [(0, 1), (1, 1)] []).filter (fun q => q.1 == q.2) = []
+    ∧ [(0, 1), (1, 1)].filter (fun q : Nat × Nat => q.1 == q.2) = [(1, 1)] := by decide
+
+/-- Tie to the source (regenerated): the right operand of a `Comparator` requires the variables of the left one. -/
+theorem c15_operand_requirement_tied : Gen.comparatorRightRequiresLeft = true := by decide
+
+end Eql.OperandDedup
